@@ -115,3 +115,117 @@ Print Assumptions hdkeychain_paddedAppend_big.
 Theorem paddedAppend_same size dst src :
   Kernels2.hdkeychain_paddedAppend size dst src = Kernels2.wif_paddedAppend size dst src.
 Proof. reflexivity. Qed.
+
+(* the model is NOT the code on the rest of uint: witness size = 2^63, src = dst = [] (the code returns
+   [], the model 2^63 zeros) *)
+Theorem wif_paddedAppend_pad_to_differs :
+  exists size dst src, size < 2 ^ 64 /\
+    Kernels2.wif_paddedAppend size dst src <> dst ++ Wif.pad_to (N.to_nat size) src.
+Proof.
+  exists (2 ^ 63), [], []. split; [reflexivity|].
+  rewrite wif_paddedAppend_big by (try reflexivity; discriminate).
+  unfold Wif.pad_to. intros E. apply (f_equal (@length N)) in E.
+  rewrite !app_length, repeat_length in E. cbn [length] in E.
+  change (2 ^ 63) with 9223372036854775808 in E. lia.
+Qed.
+Print Assumptions wif_paddedAppend_pad_to_differs.
+
+(* ---------- 3. txsort.sortableInputSlice.Less ---------- *)
+Lemma set_nth_set_at l i v : TxSort.set_nth l i v = Go.set_at l i v.
+Proof. revert i; induction l as [|x l IH]; intros [|i]; cbn [TxSort.set_nth Go.set_at]; auto. now rewrite IH. Qed.
+
+Lemma nth_res_nth {A} (l : list A) (i : nat) (d : A) :
+  (i < length l)%nat -> nth_res l i = Ok (nth i l d).
+Proof.
+  intros H. unfold nth_res. destruct (nth_error l i) as [x|] eqn:E.
+  - now rewrite (nth_error_nth _ _ d E).
+  - apply nth_error_None in E. lia.
+Qed.
+
+(* a counted monadic loop whose body succeeds on the states of an invariant *)
+Lemma foldM_zseq_inv {St} (F : St -> Z -> res St) (G : nat -> St -> St) (P : St -> Prop) (bound : nat) :
+  (forall s b, (b < bound)%nat -> P s -> F s (Z.of_nat b) = Ok (G b s) /\ P (G b s)) ->
+  forall n b s, (b + n <= bound)%nat -> P s ->
+  Go.foldM F (Go.zseq (Z.of_nat b) n) s = Ok (fold_left (fun s b => G b s) (seq b n) s).
+Proof.
+  intros Hstep. induction n as [|n IH]; intros b s Hb Hs; [reflexivity|].
+  cbn [Go.zseq Go.foldM seq fold_left].
+  destruct (Hstep s b) as [HF HP]; [lia | exact Hs |]. rewrite HF.
+  replace (Z.of_nat b + 1)%Z with (Z.of_nat (S b)) by lia.
+  apply IH; [lia | exact HP].
+Qed.
+
+(* the model's fuel loop as a fold over the loop indices *)
+Lemma rev_loop_fold oL oR : forall n b fuel h,
+  (b + n = Nat.div hash_size (L_in 1))%nat -> (n <= fuel)%nat ->
+  rev_loop fuel b oL oR h
+  = fold_left (fun h b => assign2 h b (hash_size - oL - b) (hash_size - oR - b) b) (seq b n) h.
+Proof.
+  induction n as [|n IH]; intros b fuel h Hb Hf.
+  - cbn [seq fold_left]. destruct fuel as [|fuel]; cbn [rev_loop]; [reflexivity|].
+    destruct (Nat.ltb_spec b (Nat.div hash_size (L_in 1))) as [Hlt|Hge]; [|reflexivity].
+    exfalso. rewrite <- Hb in Hlt. lia.
+  - destruct fuel as [|fuel]; [lia|]. cbn [rev_loop seq fold_left].
+    destruct (Nat.ltb_spec b (Nat.div hash_size (L_in 1))) as [Hlt|Hge].
+    + apply IH; [rewrite <- Hb | ]; lia.
+    + exfalso. rewrite <- Hb in Hge. lia.
+Qed.
+
+Lemma fold_left_pair {A B C} (g1 : A -> C -> A) (g2 : B -> C -> B) l a b :
+  fold_left (fun s c => (g1 (fst s) c, g2 (snd s) c)) l (a, b) = (fold_left g1 l a, fold_left g2 l b).
+Proof. revert a b; induction l as [|c l IH]; intros a b; cbn [fold_left fst snd]; auto. Qed.
+
+Lemma assign2_length h i j j' i' : length (assign2 h i j j' i') = length h.
+Proof. unfold assign2. now rewrite !set_nth_set_at, !set_at_length. Qed.
+
+(* i, j (the positions in the slice) only select the elements, whose fields are the other arguments;
+   a chainhash.Hash is a [32]byte *)
+Theorem sortableInputSlice_Less_tie a b i j :
+  length (in_hash a) = hash_size -> length (in_hash b) = hash_size ->
+  Kernels2.sortableInputSlice_Less (in_hash a) (in_hash b) (in_index a) (in_index b) i j
+  = Ok (TxSort.in_less a b).
+Proof.
+  intros Ha Hb. unfold Kernels2.sortableInputSlice_Less, TxSort.in_less.
+  destruct (list_eqb (in_hash a) (in_hash b)); [reflexivity|].
+  unfold reversed_i, reversed_j.
+  set (G := fun (c : nat) (s : list N * list N) =>
+    (assign2 (fst s) c (hash_size - L_in 2 - c) (hash_size - L_in 3 - c) c,
+     assign2 (snd s) c (hash_size - L_in 4 - c) (hash_size - L_in 5 - c) c)).
+  set (P := fun s : list N * list N => length (fst s) = hash_size /\ length (snd s) = hash_size).
+  match goal with |- context [Go.foldM ?F (Go.zseq _ ?n) ?s0] =>
+    assert (Hloop : Go.foldM F (Go.zseq (Z.of_nat 0) n) s0
+                    = Ok (fold_left (fun s c => G c s) (seq 0 n) s0));
+    [ apply (foldM_zseq_inv F G P (Nat.div hash_size (L_in 1))) | ]
+  end.
+  - intros [ih jh] c Hc [Hi Hj]. cbn [fst snd] in Hi, Hj.
+    let v := eval vm_compute in (Nat.div hash_size (L_in 1)) in
+      change (Nat.div hash_size (L_in 1)) with v in Hc.
+    split; [| subst G P; cbn [fst snd]; now rewrite !assign2_length].
+    cbn beta iota.
+    match goal with |- context [(?k - Z.of_nat c)%Z] =>
+      replace (k - Z.of_nat c)%Z with (Z.of_nat (Z.to_nat k - c)) by lia;
+      eval_term (Z.to_nat k)
+    end.
+    unfold hash_size in Hi, Hj.
+    repeat (first [ rewrite idx_nat, (nth_res_nth _ _ 0) by lia
+                  | rewrite upd_nat by (rewrite ?set_at_length; lia) ]; cbn [rbind]).
+    subst G. cbn [fst snd]. unfold assign2. rewrite !set_nth_set_at.
+    eval_term (hash_size - L_in 2)%nat. eval_term (hash_size - L_in 3)%nat.
+    eval_term (hash_size - L_in 4)%nat. eval_term (hash_size - L_in 5)%nat.
+    reflexivity.
+  - apply Nat.leb_le. reflexivity.
+  - split; assumption.
+  - change (Z.of_nat 0) with 0%Z in Hloop. rewrite Hloop. clear Hloop. subst G.
+    cbv beta.
+    rewrite (fold_left_pair
+               (fun h c => assign2 h c (hash_size - L_in 2 - c) (hash_size - L_in 3 - c) c)
+               (fun h c => assign2 h c (hash_size - L_in 4 - c) (hash_size - L_in 5 - c) c)).
+    cbn [rbind].
+    eval_term (L_in 0).
+    match goal with |- context [seq _ ?n] =>
+      rewrite !(rev_loop_fold _ _ n) by (try reflexivity; apply Nat.leb_le; reflexivity)
+    end.
+    eval_term (- Z.of_N (lit Xtxsort.lits_sortableInputSlice_Less 6))%Z.
+    now rewrite bytes_compare_tie.
+Qed.
+Print Assumptions sortableInputSlice_Less_tie.
